@@ -1,6 +1,7 @@
 package main
 
 import (
+	"context"
 	"flag"
 	"fmt"
 	"math"
@@ -144,7 +145,18 @@ func (r *brun) body(tid int, th bthread) func() {
 			case "can":
 				o := r.h.begin(tid, "can", -1)
 				nep := len(r.epochs)
-				b := r.cb.CanRequest()
+				var b bool
+				if (tid+nep+len(r.h.ops))%3 == 0 {
+					// the same decision through Execute: the delegate runs iff the request is admitted, otherwise ErrFailFast
+					ran := false
+					res, err := r.cb.Execute(context.Background(), func(context.Context) (interface{}, error) { ran = true; return tid, nil })
+					b = ran
+					if ran != (err == nil) || (ran && res != tid) || (!ran && err != cbreaker.ErrFailFast) {
+						r.msg = fmt.Sprintf("C03 Execute: delegate ran=%v but result=%v err=%v", ran, res, err)
+					}
+				} else {
+					b = r.cb.CanRequest()
+				}
 				r.h.end(o, fmt.Sprint(b))
 				r.checkCan(o, b, tid, nep)
 			case "succ":
